@@ -502,6 +502,26 @@ def _is_pure_merge(e, decl=None, depth=0) -> bool:
     return False
 
 
+def known_crosstalk(w, obs, stmts) -> bool:
+    """The known shared-network structure (named or bundle form) inside ONE program's build."""
+    btypes, reads = static_types(stmts)
+    allowed = [set(gamedata.sk(t) for t in v) for v in btypes.values()]
+    per_entity = {}
+    for nm, nums in obs.by_name.items():
+        key = nm[len("computing "):] if nm.startswith("computing ") else nm
+        if key in reads:
+            for n_ in nums:
+                per_entity[n_] = set(gamedata.sk(t) for t in reads[key])
+    for nm, lst in obs.anchors.items():
+        tset = btypes.get(nm) if nm in btypes else reads.get(nm)
+        if tset:
+            for num, _t in lst:
+                per_entity[num] = set(gamedata.sk(t) for t in tset)
+    labels = {n: k for k, v in obs.inputs.items() for n in v}
+    return bool(bundle_crosstalk_sites(w, allowed, per_entity, anchors=True)
+                or crosstalk_sites(w, [], labels))
+
+
 def run_case(case: dict) -> dict:
     res = base_result(case)
     stmts = case["stmts"]
@@ -528,26 +548,10 @@ def run_case(case: dict) -> dict:
             res["status"] = "excluded"
             res["excluded_by"] = sorted(hit)[0]
             return res
-        if "crosstalk" in excl:
-            btypes, reads = static_types(stmts)
-            allowed = [set(gamedata.sk(t) for t in v) for v in btypes.values()]
-            per_entity = {}
-            for nm, nums in obs.by_name.items():
-                key = nm[len("computing "):] if nm.startswith("computing ") else nm
-                if key in reads:
-                    for n_ in nums:
-                        per_entity[n_] = set(gamedata.sk(t) for t in reads[key])
-            for nm, lst in obs.anchors.items():
-                tset = btypes.get(nm) if nm in btypes else reads.get(nm)
-                if tset:
-                    for num, _t in lst:
-                        per_entity[num] = set(gamedata.sk(t) for t in tset)
-            labels = {n: k for k, v in obs.inputs.items() for n in v}
-            if (bundle_crosstalk_sites(w, allowed, per_entity, anchors=True)
-                    or crosstalk_sites(w, [], labels)):
-                res["status"] = "excluded"
-                res["excluded_by"] = "crosstalk"
-                return res
+        if "crosstalk" in excl and known_crosstalk(w, obs, stmts):
+            res["status"] = "excluded"
+            res["excluded_by"] = "crosstalk"
+            return res
         interp = lang.Interp(stmts)
         outs = c01.exported(stmts)
         by_name = {s[2]: s[3] for s in stmts if s[0] == "decl"}
